@@ -57,6 +57,15 @@ Proof.
   - rewrite nth_overflow by exact Hge. apply bnd_0.
 Qed.
 
+Lemma existsb_eqb_seq i a n : existsb (Nat.eqb i) (seq a n) = (a <=? i) && (i <? a + n).
+Proof.
+  revert a. induction n as [|n IH]; intros a; cbn [seq existsb].
+  - destruct (Nat.leb_spec a i); destruct (Nat.ltb_spec i (a + 0)); try reflexivity; lia.
+  - rewrite IH.
+    destruct (Nat.eqb_spec i a); destruct (Nat.leb_spec (S a) i); destruct (Nat.leb_spec a i);
+      destruct (Nat.ltb_spec i (S a + n)); destruct (Nat.ltb_spec i (a + S n)); try reflexivity; lia.
+Qed.
+
 (** * arithmetic of the layout *)
 Section Layout.
 Variables bits w : nat.
@@ -210,15 +219,6 @@ Proof.
     rewrite tb_set_bit by (apply Hl; now left).
     destruct (i <? w); destruct (i =? p); destruct (existsb (Nat.eqb i) l); destruct (tb m i);
       destruct (existsb (fun _ => true) l); reflexivity.
-Qed.
-
-Lemma existsb_eqb_seq i a n : existsb (Nat.eqb i) (seq a n) = (a <=? i) && (i <? a + n).
-Proof.
-  revert a. induction n as [|n IH]; intros a; cbn [seq existsb].
-  - destruct (Nat.leb_spec a i); destruct (Nat.ltb_spec i (a + 0)); try reflexivity; lia.
-  - rewrite IH.
-    destruct (Nat.eqb_spec i a); destruct (Nat.leb_spec (S a) i); destruct (Nat.leb_spec a i);
-      destruct (Nat.ltb_spec i (S a + n)); destruct (Nat.ltb_spec i (a + S n)); try reflexivity; lia.
 Qed.
 
 Lemma tb_padding_mask i : tb (padding_mask bits w) i = (w - pad <=? i) && (i <? w).
@@ -381,18 +381,12 @@ Proof.
   unfold zero_words. repeat split.
   - apply repeat_length.
   - apply Forall_forall. intros x Hx. apply repeat_spec in Hx. subst. apply bnd_0.
-  - intros i _. unfold getbit.
-    destruct (Nat.ltb_spec (i / w) nw) as [Hlt|Hge].
-    + rewrite (nth_indep _ 0%N 0%N) by now rewrite repeat_length. rewrite nth_repeat. apply tb_0.
-    + rewrite nth_overflow by now rewrite repeat_length. apply tb_0.
+  - intros i _. unfold getbit. rewrite nth_repeat. apply tb_0.
 Qed.
 
 Lemma getbit_zero i : getbit (zero_words bits w) i = false.
 Proof.
-  unfold getbit, zero_words.
-  destruct (Nat.ltb_spec (i / w) nw) as [Hlt|Hge].
-  - rewrite nth_repeat. apply tb_0.
-  - rewrite nth_overflow by now rewrite repeat_length. apply tb_0.
+  unfold getbit, zero_words. rewrite nth_repeat. apply tb_0.
 Qed.
 
 Lemma wf_set_raw ws pos v : wf ws -> pos < bits -> wf (set_raw w mx ws pos v).
